@@ -191,6 +191,31 @@ Definition run_command (t : tool) (allow_missing cancelled should_start upd : bo
   command_outcome t cancelled should_start (cs_skip st) (cs_missing st) (upd && uses_inputs t) x.
 
 (* ---------------------------------------------------------------------------------------------------------
+   The update-if-newer shortcut of ExternalCommand::execute:
+     if (canUpdateIfNewer && hasPriorResult) { result = computeCommandResult(); if (canUpdateIfNewerWithResult(result)) return result; }
+   hasPriorResult          providePriorValue: set only when the recorded value isSuccessfulCommand()
+   canUpdateIfNewer        cleared by provideValue when an input value is MissingOutput; [can_update0] is the member's
+                           value when the build begins (it is not reset by start(): a command object reused by a later
+                           build of the same build system keeps a cleared flag)
+   canUpdateIfNewerWithResult   allowModifiedOutputs && no output info of the fresh stat result is missing *)
+Definition has_prior_result (prior : option vkind) : bool :=
+  match prior with Some v => is_successful v | None => false end.
+
+Definition inputs_keep_update (vs : list vkind) : bool :=
+  forallb (fun v => negb (vkind_eqb v VMissingOutput)) vs.
+
+Definition update_shortcut (can_update0 allow_modified outputs_exist : bool) (prior : option vkind)
+           (inputs : list vkind) : bool :=
+  can_update0 && inputs_keep_update inputs && has_prior_result prior && allow_modified && outputs_exist.
+
+(* a command run with its recorded prior value made explicit *)
+Definition run_command_prior (t : tool) (allow_missing cancelled should_start : bool)
+           (can_update0 allow_modified outputs_exist : bool) (prior : option vkind)
+           (inputs : list vkind) (x : exec_result) : outcome :=
+  run_command t allow_missing cancelled should_start
+              (update_shortcut can_update0 allow_modified outputs_exist prior inputs) inputs x.
+
+(* ---------------------------------------------------------------------------------------------------------
    isResultValid.  [fs_ok] abstracts the file-system comparison the code makes for a successful value
    (outputs unchanged / directory exists / link unchanged). *)
 Definition cmd_valid (t : tool) (always_out_of_date : bool) (v : vkind) (fs_ok : bool) : bool :=
